@@ -119,16 +119,44 @@ def manage_always_compares(ctx, rid):
 
 
 def chld_always_reaps(ctx, rid):
-    """every delivery of SIGCHLD reaps: handle_chld has no path to its exit that avoids reap_workers() -- a skipped delivery
-    (re-entrancy flag, "no workers left" shortcut) leaves a zombie nobody collects, its slot never refilled, and the re-exec
-    bookkeeping (reexec_pid) never reset, because nothing else calls waitpid"""
+    """Every delivery of SIGCHLD that has something to collect reaps. Evaluated: with a tracked child (a worker in WORKERS, or
+    a pending re-exec'ed master in reexec_pid) and everything else about the arbiter unknown, handle_chld does not return
+    without reap_workers() -- except by *deferring*: it records the delivery in a flag that the running reap pass tests after
+    its reap_workers() and answers with another pass (no delivery is lost, none runs nested). A skipped delivery leaves a zombie
+    nobody collects, its slot never refilled, and reexec_pid never reset: nothing else calls waitpid."""
     repo = ctx.repo
     f_ch = ctx.fn(repo.func(ARB + ".handle_chld"))
     g = f_ch.cfg
     rp = [n for c in calls_to(repo, f_ch, ARB + ".reap_workers") for n in nodes_with(f_ch, c)]
-    p = g.must_pass(g.entry, rp, follow_exc=False) if rp else [g.entry]
-    ctx.check(rid, bool(rp) and p is None, key(f_ch, "always-reaps"), site(f_ch), "a SIGCHLD delivery can return from handle_chld without calling reap_workers()", "reap_workers() on every delivery",
-              path=(p and rp) and g.fmt_path(p) or None)
+    ctx.need(rp, rid + ": handle_chld never calls reap_workers()")
+
+    def deferred(path):
+        """the skipping path records the delivery in self.A, and every way out of the reaping pass tests self.A and re-runs"""
+        for n in path:
+            if n.kind == "stmt" and isinstance(n.ast, ast.Assign) and const(n.ast.value, NO) is True:
+                for t in n.ast.targets:
+                    if isinstance(t, ast.Attribute) and tail(t.value) == "self":
+                        A = t.attr
+                        tests = [x for x in g.tests() if isinstance(x.ast, ast.Attribute) and x.ast.attr == A and tail(x.ast.value) == "self"]
+                        again = [x for c in walk_own(f_ch.node) if isinstance(c, ast.Call) and (repo.call_target(f_ch.module, f_ch, c) or "") in (ARB + ".handle_chld", ARB + ".reap_workers") for x in nodes_with(f_ch, c) if x not in rp]
+                        if not tests or not again:
+                            continue
+                        # (whether reap_workers() returns or raises -- e.g. HaltServer --; the plain flag stores behind it are not
+                        # taken to fail)
+                        after_reap = all(g.must_pass(b, tests, exits=[g.exit, g.raise_exit], follow_exc=False) is None or b in tests for r in rp for b, l in r.out)
+                        reruns = all(any(x in g.reachable([(t_, "true")], follow_exc=False) for x in again + rp) for t_ in tests)
+                        if after_reap and reruns:
+                            return A
+        return None
+    for label, env in (("a worker is tracked", {"self.WORKERS": {4242: "worker"}, "self.reexec_pid": 0}), ("a re-exec'ed master is pending", {"self.WORKERS": {}, "self.reexec_pid": 4343}),
+                       ("workers and a pending re-exec", {"self.WORKERS": {4242: "worker"}, "self.reexec_pid": 4343})):
+        outs = Explorer(f_ch, frozen=["self.WORKERS", "self.reexec_pid"]).run(g.entry, env, watch={n.id: "reap" for n in rp})
+        bad = None
+        for o in outs:
+            if o.kind == "return" and "reap" not in o.events and not deferred(o.path):
+                bad = o
+        ctx.check(rid, bad is None, key(f_ch, "always-reaps|" + label), site(f_ch), "while %s a SIGCHLD delivery can return from handle_chld without calling reap_workers() and without handing the "
+                  "delivery to the running pass" % label, "reap_workers() on every delivery (or deferred to the running pass)", path=bad and g.fmt_path(list(bad.path)))
     others = [ff.qualname for ff in repo.funcs() for c, q in repo.calls_in(ff) if q == "os.waitpid" and ff.qualname != ARB + ".reap_workers"]
     ctx.check(rid, not others, "waitpid-sites", "gunicorn: os.waitpid", "os.waitpid is also called from %s" % others, "waitpid only in reap_workers")
 
